@@ -613,7 +613,7 @@ fn columns(l: &str) -> Vec<char> {
 pub fn bnd_tables() {
     let (ntab, maxw) = if thorough() { (2500u32, 50usize) } else { (500u32, 30usize) };
     let mut rep = Report::new("bnd_tables", &format!("{} seeded regular tables (1..3 rows plus filler rows, 1..3 columns, colspan 2 tiling the grid, cells empty/short/two words/long/wide characters/two lines/many words, \
-        one level of nested tables, rows optionally grouped in thead (th cells) / tbody / tfoot, columns may be empty in every row unless a multi-column cell with other columns spans them; 4 fixed tables with empty multi-column cells over all-empty columns), widths 1..={}; plain decorator with borders: \
+        one level of nested tables, rows optionally grouped in thead (th cells) / tbody / tfoot, columns may be empty in every row unless a multi-column cell with other columns spans them; 4 fixed tables with empty multi-column cells over all-empty columns and 4 with a long multi-column cell over short cells), widths 1..={}; plain decorator with borders: \
         no panic; lines within the width (C02); the non-space characters of all cells are exactly the non-border characters of the output (C03, C06); \
         side-by-side layout: equal line widths, first and last line are rules, every rule character matches the bars directly above and below it (C05); \
         allowing width overflow does not change a rendering that succeeds (C11)", ntab, maxw));
@@ -622,7 +622,12 @@ pub fn bnd_tables() {
     let extras = ["<table><tr><td>a1</td><td></td><td></td></tr><tr><td>b2</td><td colspan=2></td></tr></table>",
         "<table><thead><tr><th>h1</th><th colspan=2></th></tr></thead><tr><td>a2</td><td></td><td></td></tr></table>",
         "<table><tr><td>a1</td><td></td><td></td><td>c3</td></tr><tr><td>b2</td><td colspan=2></td><td>d4</td></tr></table>",
-        "<table><tr><td colspan=3></td><td>c1</td></tr><tr><td></td><td></td><td></td><td>d2</td></tr></table>"];
+        "<table><tr><td colspan=3></td><td>c1</td></tr><tr><td></td><td></td><td></td><td>d2</td></tr></table>",
+        // a long multi-column cell over short one-column cells (the spanning cell's estimate must not lower the minimum of its columns)
+        "<table><tr><td colspan=4>alpha beta gamma delta epsilon zeta eta theta</td></tr><tr><td>b1</td><td>b2</td><td>b3</td><td>b4</td></tr></table>",
+        "<table><tr><td colspan=2>one two three four five six</td><td>zz</td></tr><tr><td>p1</td><td>q2</td><td>r3</td></tr></table>",
+        "<table><tr><td>k1</td><td colspan=3>some rather long spanning text here</td></tr><tr><td>k2</td><td>m3</td><td>n4</td><td>o5</td></tr></table>",
+        "<table><tr><td>a1</td><td>b2</td><td>c3</td></tr><tr><td colspan=3>uu vv ww xx yy zz uu vv ww xx</td></tr><tr><td>d4</td><td>e5</td><td>f6</td></tr></table>"];
     for ti in 0..ntab as usize + extras.len() {
         let mut tok = 0;
         let html = if ti < extras.len() { extras[ti].to_string() } else { gen_table(&mut r, 0, &mut tok) };
